@@ -23,6 +23,22 @@ Theorem C02_forward : forall k pre g md md' n e ov,
 Proof. exact write_then_spec_decode. Qed.
 Print Assumptions C02_forward.
 
+(* the same with no success premise: `final_metadata g md = Ok md'` is discharged from wf_input and "every axis property holds
+   its values" (WriteTotal.v; C01_final_metadata_total) *)
+From Geff Require Import WriteTotal ConverseTotal.
+Theorem C02_forward_total : forall k pre g md n e ov,
+  clean k pre -> wf_input g md n e -> axes_have_data g md ->
+  exists md' tr post sg,
+    final_metadata g md = Ok md' /\
+    write_arrays k g md true ov (init pre) = (mkst (Some post) tr, Ok tt) /\
+    validate_structure k (Some post) = Ok tt /\
+    spec_decode post = Some sg /\
+    sgraph_eqb sg (mksg (w_nids g) (w_eids g)
+                        (of_props (up_props (backfill (w_nids g) md (w_nprops g))))
+                        (of_props (up_props (w_eprops g)))) = true.
+Proof. exact forward_total. Qed.
+Print Assumptions C02_forward_total.
+
 (* CONVERSE, whole store: whatever store the library reads successfully (with structural validation on) -- written by
    anyone, with any optional group or array absent, any foreign attribute or member beside it -- the graph it returns is
    the specification decoding of that store. *)
